@@ -45,6 +45,14 @@ func main() {
 		props.C18SchedWorker(os.Args[3:])
 		return
 	}
+	if os.Args[2] == "--race" {
+		tier := "quick"
+		if len(os.Args) > 3 {
+			tier = os.Args[3]
+		}
+		props.RacePass(id, tier)
+		return
+	}
 	if id == "C01" && os.Args[2] == "--history" {
 		props.C01HistoryWorker(os.Args[3:])
 		return
